@@ -1,7 +1,7 @@
 (* C16 - WorkerPool conserves tasks and always shuts down. Statements only.
    Model: Verif.C16_Pool.Model (interleaving system; `pinned` = code as pinned, `repaired` = code after the fix: commits). *)
 From Coq Require Import List ZArith Bool Permutation.
-From Verif.C16_Pool Require Import Model Inv Proofs Runs Refute Live Term Measure Group GroupProofs.
+From Verif.C16_Pool Require Import Model Inv Proofs Runs Refute Live Term Measure Group GroupProofs Options OptionsProofs.
 Import ListNotations.
 
 (* Every variant (pinned and repaired), every worker count >= 1, cancel on/off, every task program (nested submits), every
@@ -125,6 +125,51 @@ Example C16_group_nonvacuous :
              wait_children_returns f 0 = true /\ wait_parents_returns f 4 = true).
 Proof. split; eexists; vm_compute; repeat split; reflexivity. Qed.
 
+(* Option surface (workerpool.go: WithWorkerCount, WithPanicOnSubmitAfterShutdown, WithCancelPendingTasksOnShutdown; model
+   Options.v).  The parameters `nw` and `cancel` of the pool theorems above are the EFFECTIVE option values: New applies the
+   options in order over its defaults, Group.CreatePool puts the group's default (cancel-on-shutdown) in front of the
+   caller's options.  So a pool created through a group with the explicit option WithCancelPendingTasksOnShutdown(v) - after
+   anything, with no later cancel option - has the effective flag v (the caller's option wins over the group's default);
+   without one it has the group's default. *)
+Theorem C16_group_pool_options : forall ncpu pre v post, (forall b, ~ In (PCancel b) post) ->
+  pc_cancel (pool_cfg true ncpu (pre ++ PCancel v :: post)) = v.
+Proof. exact group_pool_options. Qed.
+
+Theorem C16_group_pool_default : forall ncpu caller, (forall b, ~ In (PCancel b) caller) -> pc_cancel (pool_cfg true ncpu caller) = true.
+Proof. exact group_pool_default. Qed.
+
+(* every field, both constructors: the last occurrence in the caller's list, else the default *)
+Theorem C16_pool_options_resolved : forall via ncpu caller, let pc := pool_cfg via ncpu caller in
+  pc_cancel pc = match last_cancel caller with Some v => v | None => via end /\
+  pc_workers pc = match last_workers caller with Some n => n | None => 2 * ncpu end /\
+  pc_panic pc = match last_panic caller with Some v => v | None => false end.
+Proof. exact pool_cfg_resolved. Qed.
+
+(* WithWorkerCount(n) gives the model configuration with nw = n - and with it (Model.v, step EShSend) a shutdown-signal
+   channel of capacity n - for every n, in particular above the default 2*NumCPU: the termination theorems above are for
+   every n >= 1 and so apply to it. *)
+Theorem C16_pool_workers_option : forall via ncpu pre n post p, (forall k, ~ In (PWorkers k) post) ->
+  nw (to_cfg (pool_cfg via ncpu (pre ++ PWorkers n :: post)) p) = n.
+Proof. exact pool_workers_option. Qed.
+
+(* so a group pool with cancel-on-shutdown explicitly disabled never cancels, under every schedule, and once nothing is in
+   flight (in particular after a Shutdown with a backlog has completed) every accepted task has been RUN exactly once *)
+Theorem C16_group_pool_runs_backlog : forall ncpu pre post p, (forall b, ~ In (PCancel b) post) ->
+  let c := to_cfg (pool_cfg true ncpu (pre ++ PCancel false :: post)) p in
+  1 <= nw c -> forall scripts sch, let s := run c sch (init c scripts) in
+  canc s = [] /\ ((forall i, inflight i s = 0) -> Permutation (acc s) (ran s) /\ pending s = 0%Z).
+Proof. exact group_pool_runs_backlog. Qed.
+
+(* non-vacuity: a group pool asked for with (cancel true, 33 workers, cancel false, panic) on a 16-CPU machine; the same
+   without a cancel option; New with nothing; and a run of the first pool (1 worker variant) that shuts down with a backlog *)
+Example C16_group_pool_options_nonvacuous :
+  pool_cfg true 16 [PCancel true; PWorkers 33; PCancel false; PPanic true] = mkPcfg 33 true false /\
+  pool_cfg true 16 [PWorkers 3] = mkPcfg 3 false true /\ pool_cfg false 16 [] = mkPcfg 32 false false /\
+  (let c := to_cfg (pool_cfg true 16 ([PCancel true; PWorkers 1] ++ PCancel false :: [PPanic true])) [[]; []; []] in
+   let s := run c (concat (repeat [(TE 0, 0); (TD, 0); (TW 0, 1)] 40)) (init c [[OStart; OSubmit 0; OSubmit 1; OSubmit 2; OShutdown; OWaitShutdown]]) in
+   nw c = 1 /\ (forall i, inflight i s = 0) /\ acc s = [0; 1; 2] /\ ran s = [0; 1; 2] /\ canc s = [] /\ all_dead s = true).
+Proof. vm_compute. repeat split; try reflexivity. Qed.
+
 (* The pinned code violates it: explicit schedules ending in stuck states (replayed on the pinned code with the verif hooks). *)
 Theorem C16_refuted_submit_race :
   let s := run cA schA (init cA scriptsA) in
@@ -169,5 +214,10 @@ Print Assumptions C16_shutdown_terminates.
 Print Assumptions C16_shutdown_progress.
 Print Assumptions C16_shutdown_completes.
 Print Assumptions C16_group.
+Print Assumptions C16_group_pool_options.
+Print Assumptions C16_group_pool_default.
+Print Assumptions C16_pool_options_resolved.
+Print Assumptions C16_pool_workers_option.
+Print Assumptions C16_group_pool_runs_backlog.
 Print Assumptions C16_refuted_submit_race.
 Print Assumptions C16_refuted_lost_wakeup.
